@@ -26,6 +26,20 @@ ASSUMPTIONS = [
     "index variants include NAMED indexes: the index carrying the name (and values) of a column the "
     "formula uses, the name of an unused column, and a two-level MultiIndex with such names, with and "
     "without missing values in used columns",
+    "columns of pandas' nullable extension dtypes (Int64, Float64, boolean; complete ones and ones with "
+    "pd.NA) are used by about a third of the formulas (bare, in interactions, under center / scale / C / "
+    "I(...), as group-specific effects, as numeric response), `binary(...)` / `B(...)` atoms with "
+    "numeric, string and namespace-variable success values over integer, string and categorical columns "
+    "by about a third (as common term, in interactions, as group-specific effect, as response); when a "
+    "used column has missing values the permutation rule is applied to the rows that are kept (the "
+    "harness computes which rows are complete in the used columns and renumbers sigma accordingly)",
+    "further index variants: 1-based and reversed integer labels, unique strings, dates, non-unique "
+    "integers without the label 0, negative floats, a MultiIndex, and rows permuted under a default "
+    "RangeIndex (labels travel with the rows)",
+    "prediction: `evaluate_new_data` of the common and group-specific parts on a frame made of "
+    "training rows, the same frame under a relabelled index (no effect) and with its rows permuted "
+    "(rows of the result permuted); a new frame the base evaluation refuses (KF-C06-D13 / D14 classes: "
+    "a level or the success value does not occur) is not compared",
 ]
 TRUSTED = ["pandas positional access (.values), np.unique, np.mean/std/percentile"]
 
@@ -87,8 +101,10 @@ def params_of(dm):
     return [r + [[0, 1]] * (width - len(r)) for r in out]
 
 
-def snapshot(formula, df, resp=None):
+def snapshot(formula, df, resp=None, extra_names=None):
     names = NAMES if resp is None else dict(NAMES, resp=np.asarray(resp, dtype=float))
+    if extra_names:
+        names = dict(names, **extra_names)
     obs, _ = designs.observe(formula, df, names)
     if "err" in obs:
         return obs
@@ -104,7 +120,11 @@ def snapshot(formula, df, resp=None):
             levels.append([str(c.name), None if c.levels is None else [str(x) for x in c.levels]])
     meta["levels"] = levels
     return {"mats": {p: (obs.get(p) or {}).get("matrix") for p in ("response", "common", "group")},
-            "meta": json.dumps(meta, sort_keys=True), "params": params_of(dm)}
+            "meta": json.dumps(meta, sort_keys=True), "params": params_of(dm), "_dm": dm}
+
+
+def strip_dm(snap):
+    return {k: v for k, v in snap.items() if not k.startswith("_")}
 
 
 def add_offset_column(r, df):
@@ -142,7 +162,7 @@ def named_index_variants(r, df, formula, which):
         elif kind == "unused":
             d.index = pd.Index([r.randrange(0, max(2, n // 2)) for _ in range(n)], name="unused")
         elif kind == "multi":
-            other = r.choice([c for c in df.columns if c != col])
+            other = r.choice([c for c in df.columns if c != col and c not in NULLABLE_COLUMNS])
             d.index = pd.MultiIndex.from_arrays([df[col].to_numpy(), df[other].to_numpy()],
                                                 names=[col, other])
         else:                                                  # "multi2": a used name on the 2nd level
@@ -192,6 +212,137 @@ def nan_variants(r, df):
     return base, [("same", a, None), ("same", b, None)]
 
 
+# ------------------------------------------------------------------------------------------------
+# nullable extension dtypes, binary(...) atoms, further index variants, prediction
+# ------------------------------------------------------------------------------------------------
+NULL_ATOMS = ["ni", "nf", "nb", "center(ni)", "scale(nf)", "ni:f", "nf:g", "nb:h", "C(nb)", "C(ni)",
+              "I(ni + 1)", "{nf * 2}", "ni:nf", "(ni | g)", "(0 + nf | h)", "(nb | g)", "poly(nf, 2)",
+              # with pd.NA: the rows are dropped first
+              "nia", "nfa", "nba", "nia:f", "center(nfa)", "C(nba)", "(nia | h)", "nfa:ni", "(0 + nfa | g)"]
+BIN_ATOMS = ["binary(k, 2)", "B(k, 10)", "binary(kz, 0)", "B(kz, -1)", "binary(k, 2.0)", "binary(k, two)",
+             "binary(f, 'b')", 'B(g, "w")', "binary(cu, 'm2')", "B(co, 'mid')", "binary(f, lev)",
+             "binary(k)", "B(f)", "binary(ni, ni0)", "binary(nb, True)",
+             "binary(k, 2):f", "binary(kz, 0):x", "g:B(k, 10)", "(binary(k, 2) | g)",
+             "(0 + binary(f, 'a') | h)", "(B(kz, 1) | g)"]
+BIN_RESPONSES = ["binary(k, 2)", "B(kz, 0)", "binary(f, 'c')", "binary(k, two)"]
+CORPUS += ["y ~ ni + nf + nb", "y ~ ni + z + (ni | g)", "nf ~ nia:f + (1 | g)", "y ~ C(nb) + center(nfa)",
+           "y ~ binary(k, 2) + z + (binary(k, 2) | g)", "binary(kz, 0) ~ f + B(co, 'mid')",
+           "y ~ B(k, 10):f + binary(cu, 'm2') + ni"]
+NAMES = dict(NAMES, two=2, lev="b")
+
+
+NULLABLE_COLUMNS = ("ni", "nf", "nb", "nia", "nfa", "nba")
+
+
+def add_nullable_columns(r, df):
+    """columns of pandas' nullable extension dtypes: complete ones and ones holding pd.NA"""
+    n = len(df)
+    ints = [r.randrange(-3, 8) for _ in range(n)]
+    flts = [r.randrange(-8, 9) / 4 for _ in range(n)]
+    bools = [r.random() < 0.5 for _ in range(n)]
+    bools[0], bools[1] = True, False
+    r.shuffle(bools)
+    df["ni"] = pd.array(ints, dtype="Int64")
+    df["nf"] = pd.array(flts, dtype="Float64")
+    df["nb"] = pd.array(bools, dtype="boolean")
+    for name, vals, dt in (("nia", ints, "Int64"), ("nfa", flts, "Float64"), ("nba", bools, "boolean")):
+        vals = list(vals)
+        for i in r.sample(range(n), r.randrange(1, 3)):
+            vals[i] = pd.NA
+        df[name] = pd.array(vals, dtype=dt)
+    return df
+
+
+def complete_rows(formula, df):
+    """which rows of `df` are complete in the columns the formula uses (positions, in order)"""
+    used = used_columns(formula, df)
+    if not used:
+        return list(range(len(df)))
+    keep = ~df[used].isna().any(axis=1).to_numpy()
+    return [i for i in range(len(df)) if keep[i]]
+
+
+def kept_sigma(sigma, kept, n):
+    """sigma restricted to the rows that are kept, renumbered by their rank among the kept rows"""
+    rank = {row: j for j, row in enumerate(kept)}
+    return [rank[s] for s in sigma if s in rank]
+
+
+INDEX_KINDS = ["one_based", "reversed", "strings", "dates", "nonunique_no0", "neg_floats", "multi",
+               "range_perm"]
+
+
+def relabel(r, df, kind):
+    """-> (rule, frame, sigma): the same rows under another index (`range_perm`: rows permuted under
+    a default RangeIndex, so that the labels 0..n-1 travel with the rows)"""
+    n = len(df)
+    d = df.copy()
+    if kind == "one_based":
+        d.index = range(1, n + 1)
+    elif kind == "reversed":
+        d.index = range(n - 1, -1, -1)
+    elif kind == "strings":
+        labels = [f"obs{i}" for i in range(n)]
+        r.shuffle(labels)
+        d.index = labels
+    elif kind == "dates":
+        d.index = pd.date_range("2024-01-01", periods=n, freq="D")
+    elif kind == "nonunique_no0":
+        d.index = [r.randrange(1, max(3, n // 2)) for _ in range(n)]
+    elif kind == "neg_floats":
+        d.index = [-(i + 1) / 2 for i in range(n)]
+    elif kind == "multi":
+        d.index = pd.MultiIndex.from_arrays([[r.choice("ab") for _ in range(n)], list(range(n))])
+    else:
+        sigma = list(range(n))
+        r.shuffle(sigma)
+        return "perm", df.reset_index(drop=True).iloc[sigma], sigma
+    return "same", d, None
+
+
+def new_data_pairs(r, dm, df, formula, tier):
+    """evaluate_new_data on a frame made of training rows, on the same frame under other indexes and
+    with its rows permuted -> (pairs for c08_spec, meta, counts)"""
+    kept = complete_rows(formula, df)
+    idx = list(kept)
+    r.shuffle(idx)
+    idx = idx[: r.randrange(max(2, len(idx) // 2), len(idx) + 1)]
+    base_new = df.iloc[idx].reset_index(drop=True)
+
+    def run(frame):
+        out = {}
+        for part in ("common", "group"):
+            obj = getattr(dm, part)
+            if obj is None:
+                out[part] = None
+                continue
+            try:
+                out[part] = designs.mat(obj.evaluate_new_data(frame).design_matrix)
+            except Exception as e:  # noqa
+                out[part] = {"err": type(e).__name__, "msg": str(e)[:80]}
+        return out
+    base = run(base_new)
+    kinds = r.sample(INDEX_KINDS, 1 if tier == "quick" else 2)
+    if "range_perm" not in kinds:
+        kinds.append("range_perm")
+    pairs, meta, errors = [], [], []
+    for kind in kinds:
+        rule, frame, sigma = relabel(r, base_new, kind)
+        other = run(frame)
+        for part in ("common", "group"):
+            b, o = base[part], other[part]
+            if b is None or isinstance(b, dict):
+                continue
+            if isinstance(o, dict):
+                errors.append((kind, part, o))
+                continue
+            pairs.append({"rule": rule, "base": b, "other": o, "sigma": sigma or [], "meta_base": "",
+                          "meta_other": "", "params_base": [], "params_other": []})
+            meta.append(("new:" + kind, rule, part))
+    refused = [p for p in ("common", "group") if isinstance(base[p], dict)]
+    return pairs, meta, errors, refused
+
+
 # variant numbers: 0-8 `variants`, 9 a named index on the complete frame; 100-101 `nan_variants`,
 # 102-103 named indexes on the frame with missing values
 
@@ -203,7 +354,12 @@ def explore(tier, seed, res=None, replay=None):
                 "column removed, the unused column with NaN removed, a named index / MultiIndex, and "
                 "missing values in used columns under relabelled and under named indexes); formulas "
                 "include ones naming no frame column, splines with knots from the environment and "
-                "stateful transforms of a column with a large offset relative to its spread; non-trivial = a pair whose design has a categorical or stateful "
+                "stateful transforms of a column with a large offset relative to its spread, columns of "
+                "nullable extension dtypes (Int64 / Float64 / boolean, with and without pd.NA), "
+                "binary(...) / B(...) atoms with numeric and string success values, further index "
+                "variants per frame (1-based, reversed, strings, dates, non-unique without 0, floats, "
+                "MultiIndex, rows permuted under a RangeIndex) and evaluate_new_data on relabelled / "
+                "permuted new frames; non-trivial = a pair whose design has a categorical or stateful "
                 "atom; distinct by (formula, variant)")
     n_cases = 300 if tier == "quick" else 10000
     cases = []
@@ -218,9 +374,14 @@ def explore(tier, seed, res=None, replay=None):
     for f, path in cases:
         r = rng_for(seed, "c08", path)
         df = designs.gen_frame(r)
-        formula = f or designs.gen_formula(r, extra=True)
-        if f is None and r.random() < 0.12:
-            formula += r.choice([" + bs(z, knots=kn)", " + bs(z, knots=kn, degree=2):f"])
+        # (a replay of a generated case is given its formula: the generator's draws are still made, so
+        # that the permutations and index labels drawn afterwards are those of the original run)
+        generated_case = f is None or (replay is not None and path >= len(CORPUS))
+        generated = designs.gen_formula(r, extra=True) if generated_case else None
+        tail = ""
+        if generated_case and r.random() < 0.12:
+            tail = r.choice([" + bs(z, knots=kn)", " + bs(z, knots=kn, degree=2):f"])
+        formula = f or (generated + tail)
         # additions of this check draw from their own generators (the cases above stay what they were)
         r2 = rng_for(seed, "c08", path, "extensions")
         add_offset_column(r2, df)
@@ -228,12 +389,30 @@ def explore(tier, seed, res=None, replay=None):
         u1, a1, u2, a2 = r2.random(), r2.choice(TS_ATOMS), r2.random(), r2.choice(TS_ATOMS[:6])
         if f is None and u1 < 0.3:
             formula += " + " + a1 + (" + " + a2 if u2 < 0.2 and a2 != a1 else "")
+        # nullable extension dtypes and binary(...) atoms (own generator, drawn unconditionally)
+        r3 = rng_for(seed, "c08", path, "nullable-binary")
+        add_nullable_columns(r3, df)
+        extra_names = {"ni0": int(df["ni"].iloc[r3.randrange(len(df))])}
+        v1, n1, v2, n2, v3, b1, v4, rs = (r3.random(), r3.choice(NULL_ATOMS), r3.random(),
+                                          r3.choice(NULL_ATOMS), r3.random(), r3.choice(BIN_ATOMS),
+                                          r3.random(), r3.choice(["ni", "nf"] + BIN_RESPONSES))
+        if f is None:
+            if v1 < 0.35:
+                formula += " + " + n1 + (" + " + n2 if v2 < 0.3 and n2 != n1 else "")
+            if v3 < 0.35:
+                formula += " + " + b1
+            if v4 < 0.12 and formula.startswith("y ~"):
+                formula = rs + formula[1:]
         if "ts" in used_columns(formula, df):
             res.count("formulas with a transform of the large-offset column")
+        if set(used_columns(formula, df)) & set(NULLABLE_COLUMNS):
+            res.count("formulas using a column of a nullable extension dtype")
+        if "binary(" in formula or "B(" in formula:
+            res.count("formulas with a binary(...) atom")
         # a row-aligned array in the calling environment: moves with the rows
         resp = [r.randrange(-9, 10) / 2 for _ in range(len(df))]
         res.evaluations += 1
-        base = snapshot(formula, df, resp)
+        base = snapshot(formula, df, resp, extra_names)
         if "err" in base:
             res.count("impl_error:" + base["err"])
             continue
@@ -242,14 +421,25 @@ def explore(tier, seed, res=None, replay=None):
         # (time budget of the quick tier: the named index on the complete frame in half of the cases)
         all_variants = variants(r, df) + named_index_variants(
             r2, df, formula, [r2.choice(kinds)] if (tier != "quick" or r2.random() < 0.5) else [])
-        for k, (rule, d2, sigma) in enumerate(all_variants):
-            other = snapshot(formula, d2, [resp[i] for i in sigma] if sigma else resp)
+        # further index variants (variant numbers 20, 21, ...)
+        # (time budget of the quick tier: one of them for 60% of the frames)
+        more = [relabel(r3, df, kind) for kind in (
+            r3.sample(INDEX_KINDS, 1 if r3.random() < 0.6 else 0) if tier == "quick"
+            else r3.sample(INDEX_KINDS, 2))]
+        kept = complete_rows(formula, df)          # rows without a missing value in a used column
+        if len(kept) < len(df):
+            res.count("designs that drop rows holding pd.NA")
+        numbered = list(enumerate(all_variants)) + list(enumerate(more, start=20))
+        for k, (rule, d2, sigma) in numbered:
+            other = snapshot(formula, d2, [resp[i] for i in sigma] if sigma else resp, extra_names)
             if "err" in other:
                 res.failures.append({"case": {"formula": formula, "seed_path": path, "variant": k},
-                                     "impl": other, "expected": "same design", "finding": None,
+                                     "impl": strip_dm(other), "expected": "same design", "finding": None,
                                      "why": f"variant {k} ({rule}) raises {other['err']} although the "
                                             "base frame is accepted"})
                 continue
+            if sigma and len(kept) < len(df):
+                sigma = kept_sigma(sigma, kept, len(df))
             for part in ("response", "common", "group"):
                 if base["mats"][part] is None and other["mats"][part] is None:
                     continue
@@ -259,27 +449,49 @@ def explore(tier, seed, res=None, replay=None):
                               "params_other": other["params"]})
                 meta.append((k, rule, part))
             res.nontrivial.add((formula, path, k))
+        # prediction: evaluate_new_data under relabelled indexes / permuted rows of the new frame
+        if r3.random() < (0.3 if tier == "quick" else 0.6) or "binary(" in formula or "B(" in formula:
+            np_, nm_, nerr, refused = new_data_pairs(r3, base["_dm"], df, formula, tier)
+            pairs += np_
+            meta += nm_
+            res.count("new-data pairs (evaluate_new_data under another index / row order)", len(np_))
+            for part in refused:
+                res.count("new frames the base evaluation refuses (not compared)")
+            for kind, part, o in nerr:
+                res.failures.append({
+                    "case": {"formula": formula, "seed_path": path, "variant": "new:" + kind,
+                             "part": part}, "impl": o, "expected": "same matrix", "finding": None,
+                    "why": f"evaluate_new_data ({part}) raises {o['err']} on the new frame under "
+                           f"index variant '{kind}' although the same rows are accepted under the "
+                           "default index"})
         # missing values + relabelled indexes
         nbase_df, nvars = nan_variants(r, df)
         nvars = nvars + named_index_variants(
             r2, nbase_df, formula, [r2.choice(["used", "multi", "multi2"])] + (
                 [r2.choice(["unused", "multi", "used"])] if (tier != "quick" or r2.random() < 0.5)
                 else []))
-        nbase = snapshot(formula, nbase_df, resp)
+        # (variant number 110: one of the further index variants on the frame with missing values)
+        nvars = list(enumerate(nvars, start=100)) + (
+            [(110, relabel(r3, nbase_df, r3.choice(INDEX_KINDS)))]
+            if r3.random() < (0.35 if tier == "quick" else 0.6) else [])
+        nbase = snapshot(formula, nbase_df, resp, extra_names)
         if "err" not in nbase:
-            for k, (rule, d2, sigma) in enumerate(nvars, start=100):
-                other = snapshot(formula, d2, resp)
+            nkept = complete_rows(formula, nbase_df)
+            for k, (rule, d2, sigma) in nvars:
+                other = snapshot(formula, d2, [resp[i] for i in sigma] if sigma else resp, extra_names)
                 if "err" in other:
                     res.failures.append({"case": {"formula": formula, "seed_path": path, "variant": k},
-                                         "impl": other, "expected": "same design", "finding": None,
+                                         "impl": strip_dm(other), "expected": "same design", "finding": None,
                                          "why": f"variant {k} (missing values, relabelled / named index) raises "
                                                 f"{other['err']}"})
                     continue
+                if sigma:
+                    sigma = kept_sigma(sigma, nkept, len(nbase_df))
                 for part in ("response", "common", "group"):
                     if nbase["mats"][part] is None and other["mats"][part] is None:
                         continue
                     pairs.append({"rule": rule, "base": nbase["mats"][part], "other": other["mats"][part],
-                                  "sigma": [], "meta_base": nbase["meta"], "meta_other": other["meta"],
+                                  "sigma": sigma or [], "meta_base": nbase["meta"], "meta_other": other["meta"],
                                   "params_base": nbase["params"], "params_other": other["params"]})
                     meta.append((k, rule, part))
         reqs.append({"op": "c08_spec", "pairs": pairs})
